@@ -141,9 +141,10 @@ class CumSpace(Subspace):
                             if not defined[i]:
                                 continue
                             if exp[i] == R.NEUTRAL:
-                                if obs[i] is None or obs[i] == 0:
+                                # the sum of no values is 0 (the neutral result of C01's statement)
+                                if obs[i] == 0 and obs[i] is not None and obs[i] is not False:
                                     continue
-                                bad = f"row {i}: nothing to sum yet, expected 0 or null, got {obs[i]}"
+                                bad = f"row {i}: nothing to sum yet, expected 0, got {obs[i]}"
                                 break
                             if not C.same(exp[i], obs[i], odt if isinstance(odt, np.dtype) else None):
                                 bad = f"row {i}: expected {exp[i]} got {obs[i]}"
